@@ -2,7 +2,8 @@
 # tools/try_seed.sh <seed-dir-or-patch> <PROP> [tier] : apply the patch to /repo, run the check, undo.
 P=$(realpath $1); [ -d "$P" ] && P=$P/patch.diff
 PROP=$2; TIER=${3:-quick}
+trap 'git -C /repo checkout -- .' EXIT INT TERM
 git -C /repo apply "$P" || { echo "APPLY FAILED"; exit 3; }
-cd /verif && timeout 3600 ./check $PROP --tier $TIER > /tmp/try_$PROP.log 2>&1; rc=$?
+cd /verif && timeout 1500 ./check $PROP --tier $TIER > /tmp/try_$PROP.log 2>&1; rc=$?
 git -C /repo checkout -- . 
 echo "seed=$1 prop=$PROP rc=$rc"; grep -E "^VIOLATION|^KNOWN-FINDING|^HARNESS-ERROR|^== .*obligations=" /tmp/try_$PROP.log | cut -c1-260 | head -12
